@@ -12,6 +12,8 @@ SNIPPETS = [
     # a statement that ends in a backslash continuation at the end of the file, in every newline style
     "x = 1 \\\n", "x = 1 \\\r", "x = 1 \\\r\n", "y = 0\rx = 1 \\\r", "def f():\r    return 1 + \\\r",
     "if x: \\\n", "x = [1,\n     2] \\\n\n",
+    # ... or is followed by an empty / comment-only line
+    "x = 1 \\\n\ny = 2\n", "x = 1 \\\n# c\ny = 2\n", "def f():\n    a = 1 \\\n\n    b = 2\nc = 3\n", "x = 1 \\\r\n\r\ny = 2\r\n",
     "import os\nimport sys\n\nx = os.path.join(sys.prefix, 'a')\n",
     "def f(a, b=3, *args, **kw):\n    return a + b\n",
     "def f():\n    if x:\n        return 1\n    else:\n        return 2\n\n\ndef g():\n    pass\n",
@@ -494,7 +496,7 @@ def edit_structured(rng, text, history=()):
 # ---------------------------------------------------------------------------
 # elementary single-line edits (systematic sweeps over snippet x line x edit)
 # ---------------------------------------------------------------------------
-ELEMENTARY = ['blank-before', 'delete', 'duplicate', 'indent4', 'dedent4', 'ff-start', 'append-stmt', 'comment-out',
+ELEMENTARY = ['strip-backslash', 'add-backslash', 'blank-before', 'delete', 'duplicate', 'indent4', 'dedent4', 'ff-start', 'append-stmt', 'comment-out',
               'indent1', 'join-next', 'ff-line-before', 'split']
 
 
@@ -521,7 +523,13 @@ def elementary(text, i, kind):
     if nl != '\n':
         # edits in a CR / CRLF file use that file's line ending
         return _elementary_nl(lines, i, kind, pad, nl)
-    if kind == 'blank-before':
+    if kind == 'strip-backslash':
+        body = ln[:-1] if ln.endswith('\n') else ln
+        lines[i] = (body.rstrip(' \t')[:-1].rstrip(' ') if body.rstrip(' \t').endswith('\\') else body + ' #') + ('\n' if ln.endswith('\n') else '')
+    elif kind == 'add-backslash':
+        body = ln[:-1] if ln.endswith('\n') else ln
+        lines[i] = body + ' \\' + ('\n' if ln.endswith('\n') else '')
+    elif kind == 'blank-before':
         lines[i:i] = ['\n']
     elif kind == 'delete':
         del lines[i]
@@ -555,7 +563,11 @@ def elementary(text, i, kind):
 def _elementary_nl(lines, i, kind, pad, nl):
     ln = lines[i]
     body = ln[:-len(nl)]
-    if kind == 'blank-before':
+    if kind == 'strip-backslash':
+        lines[i] = (body.rstrip(' \t')[:-1].rstrip(' ') if body.rstrip(' \t').endswith('\\') else body + ' #') + nl
+    elif kind == 'add-backslash':
+        lines[i] = body + ' \\' + nl
+    elif kind == 'blank-before':
         lines[i:i] = [nl]
     elif kind == 'delete':
         del lines[i]
@@ -599,7 +611,7 @@ def outlier_text(rng):
             out.append('    ' * i + 'x%d = %d\n' % (i, i))
         return ''.join(out)
     if k == 2:
-        d = rng.choice([20, 150, 300])
+        d = rng.choice([20, 150, 300, 450, 700])
         return 'x = ' + '(' * d + '1' + ')' * d + '\ny = ' + '[' * d + ']' * d + '\nz = 2\n'
     if k == 3:
         n = rng.choice([300, 1000, 2500])
